@@ -325,7 +325,7 @@ def run(ctx: Check):
         "runs dry under an attempted alloc, and some free/replace/clear executes together with an alloc"
     )
     ctx.proof_stage()
-    procs = ctx.pick(1, None)
+    procs = ctx.pick(1, 4)  # tiny cases: a large fork pool costs more than it saves
     valid, malformed = gen_cases(ctx)
     valid = _corpus() + valid
     lockstep(ctx, "pe-allocator", "C25", valid, impl, monitor, more_cases, nontrivial, procs=procs)
@@ -333,7 +333,7 @@ def run(ctx: Check):
     ctx.count("configurations", len({(c.desc["n"], c.desc["aw"], c.desc["fw"], c.desc["init"]) for c in valid}))
     if ctx.thorough:
         cases = exhaustive_cases(ctx)
-        lockstep(ctx, "pe-allocator-single-step", "C25", cases, impl, monitor, more_cases, lambda c, o: True, procs=procs)
+        lockstep(ctx, "pe-allocator-single-step", "C25", cases, impl, monitor, more_cases, lambda c, o: True, procs=1)
         ctx.note("thorough: all single steps from all masks for 7 small configurations (entered via replace, observed via peek)")
     ctx.note("replace+clear in the same cycle is never generated: both transactions call the exclusive method "
              "replace, no priority is declared, the winner (currently replace) is an artefact of scheduling order")
